@@ -365,7 +365,9 @@ def gen_call(rng):
     argnames = rng.random() < 0.2       # base / derived keys spelled like parameter names of Dict.__call__ / apply (never `key`: see ASSUMPTIONS)
     base = rng.sample(['a', 'self', 'function'] if argnames else ['a', 'b', 'c'], rng.choice([0, 1, 2, 3]))
     env = {k: rng.randrange(-3, 6) for k in base}
-    derived = rng.sample(['p', 'self', 'other', 'value', 'function', 'u'] if argnames else ['p', 'q', 'r', 's', 't', 'u'], rng.choice([0, 1, 2, 2, 3, 3, 4, 5, 6]))
+    # `key` as a MEMBER name (seeded C16-u3: the member called `key` dropped from the dependency set): a function declares an argument
+    # `key` only when a member of that name exists, so apply's default key = <name of the member being evaluated> is always trumped
+    derived = rng.sample(['p', 'self', 'key', 'value', 'function', 'u'] if argnames else ['p', 'q', 'r', 's', 't', 'u'], rng.choice([0, 1, 2, 2, 3, 3, 4, 5, 6]))
     if base and derived and rng.random() < 0.35:
         # a callable may REDEFINE a key the mapping already holds; its dependents must then wait for the new value
         for b in rng.sample(base, rng.choice([1, min(2, len(base))])):
